@@ -793,7 +793,7 @@ func handlerFuncs(c *Ctx) []*ssa.Function {
 func ruleC09_4(c *Ctx, r *Rep) {
 	// Publish: every PublishMessage.Execute in the handler receives the tx of one enclosing DoTx closure
 	if h := r.Anchor("C09.4", "(*services.publisherServer).Publish"); h != nil {
-		execs := callsIn(h, true, func(cal *ssa.Function, _ ssa.CallInstruction) bool { return fnIs(cal, modPath+"/actions", "PublishMessage.Execute") })
+		execs := c.callsInOp(h, func(cal *ssa.Function, _ ssa.CallInstruction) bool { return fnIs(cal, modPath+"/actions", "PublishMessage.Execute") })
 		ok := len(execs) > 0
 		for _, ci := range execs {
 			tx, isP := ci.Common().Args[2].(*ssa.Parameter)
@@ -859,6 +859,29 @@ func ruleC09_4(c *Ctx, r *Rep) {
 func closurePassedToRunner(cl *ssa.Function) bool {
 	mc := makeClosureOf(cl)
 	if mc == nil {
+		// a named function or method handed to the runner as a value (method value: closure over its bound wrapper)
+		if lastCtx == nil || cl.Parent() != nil {
+			return false
+		}
+		for _, f := range lastCtx.Funcs {
+			for _, b := range f.Blocks {
+				for _, in := range b.Instrs {
+					call, ok := in.(*ssa.Call)
+					if !ok || !isTxRunner(call.Call.StaticCallee()) {
+						continue
+					}
+					for _, a := range call.Call.Args {
+						g := funcOf(a)
+						if t := boundTarget(g); t != nil {
+							g = t
+						}
+						if g == cl {
+							return true
+						}
+					}
+				}
+			}
+		}
 		return false
 	}
 	refs := mc.Referrers()
